@@ -2382,3 +2382,28 @@ def r1_18(rep):
         rep.check(ok, "every-method-considered", "iterates over all methods, compares names only" if ok else
                   "the search skips some methods (%s): an accessor that collides with one of the skipped functions keeps its name" %
                   (", ".join(lossy) or "tests `method.kind()`"), b.loc(c))
+
+
+# =====================================================================================================
+# R1.19
+# =====================================================================================================
+@RULES.rule("R1.19", "helper source that is pasted into the bindings names `core` / `std` by absolute path", floor=1)
+def r1_19(rep):
+    """`codegen/bitfield_unit.rs` is included as text in front of the bindings.  A path that starts with `core::` (no leading `::`) is
+    resolved relative to the module it lands in, where the header's own items live: `struct core { int x; };` next to any bit-field
+    makes `core::ptr::addr_of!` / `core::mem::size_of` resolve to the user's struct (E0433).  The quote! sites are held to the same
+    rule by R1.5; this is the one helper that is pasted as a file."""
+    import facts as _facts
+    path = os.path.join(_facts.REPO, "bindgen/codegen/bitfield_unit.rs")
+    rep.need(os.path.exists(path), "bindgen/codegen/bitfield_unit.rs")
+    text = open(path).read()
+    # strip comments and string literals
+    code = re.sub(r"//[^\n]*", "", text)
+    code = re.sub(r'"(?:[^"\\]|\\.)*"', '""', code)
+    n_abs = len(re.findall(r"::(core|std)::", code))
+    rel = re.findall(r"(?<![:\w])(core|std)::[\w:]+", code)
+    rel_full = re.findall(r"(?<![:\w])((?:core|std)::[\w:]+!?)", code)
+    rep.note("paths", {"absolute": n_abs, "relative": sorted(set(rel_full))[:8]})
+    rep.check(not rel, "helper-paths-absolute:bitfield_unit.rs", "every `core` / `std` path starts with `::`" if not rel else
+              "%d paths such as `%s` have no leading `::`: a header item named `%s` in the same module shadows the crate" %
+              (len(rel_full), rel_full[0], rel[0]), "bindgen/codegen/bitfield_unit.rs")
